@@ -139,7 +139,7 @@ pub const SVERIF_TEXT: &str = include_str!("../schemas/sverif.graphql");
 // Curated datasets for S-verif
 
 fn item(ds: &mut Dataset, ty: &str, id: i64, n: FV, s: FV) -> usize {
-    ds.add(ty, vec![("id", values::i(id)), ("n", n), ("s", s), ("l", FV::Null), ("ls", FV::Null), ("f", FV::Null), ("b", FV::Null)])
+    ds.add(ty, vec![("id", values::i(id)), ("n", n), ("s", s), ("l", FV::Null), ("ls", FV::Null), ("ll", FV::Null), ("f", FV::Null), ("b", FV::Null)])
 }
 
 fn set(ds: &mut Dataset, v: usize, k: &str, x: FV) {
@@ -194,6 +194,8 @@ pub fn curated() -> Vec<Dataset> {
     set(&mut d, v0, "l", list(vec![i(1), i(2)]));
     set(&mut d, v1, "l", list(vec![]));
     set(&mut d, v2, "l", list(vec![FV::Null, u(1)]));
+    set(&mut d, v0, "ll", list(vec![list(vec![]), list(vec![i(1), i(2)])]));
+    set(&mut d, v1, "ll", list(vec![FV::Null, list(vec![FV::Null, u(1)])]));
     set(&mut d, v0, "ls", list(vec![s("a"), s("b")]));
     set(&mut d, v1, "ls", list(vec![]));
     set(&mut d, v3, "ls", list(vec![FV::Null, s("")]));
